@@ -468,7 +468,11 @@ class C04(core.PropertyCheck):
                 collect_types(p["ast"], types)
             verdicts.append(v)
         err_lines = sorted({d[2] for d in all_diags if str(d[1]).lower() in ERROR_LEVELS and isinstance(d[2], int)})
-        return {"exc": res.get("exc"), "exc_post": res.get("exc_post"), "verdicts": verdicts, "error_lines": err_lines,
+        err_count = {}
+        for d in all_diags:
+            if str(d[1]).lower() in ERROR_LEVELS and isinstance(d[2], int):
+                err_count[str(d[2])] = err_count.get(str(d[2]), 0) + 1
+        return {"exc": res.get("exc"), "exc_post": res.get("exc_post"), "verdicts": verdicts, "error_lines": err_lines, "error_count": err_count,
                 "types": sorted(types), "metadata_bson_exc": res.get("metadata_bson_exc")}
 
     def run_synth(self, case):
@@ -525,6 +529,7 @@ class C04(core.PropertyCheck):
     def oracle(self, case, impl):
         if case["kind"] == "synth":
             return None
+        und_total = {}
         for v in impl["verdicts"]:
             where = f"{v['fileid']}@{v['stage']}"
             if v.get("ser_exc"):
@@ -543,6 +548,11 @@ class C04(core.PropertyCheck):
                 for line in v["undestined"]:
                     if line not in impl["error_lines"]:
                         return f"ref_role without destination and without error diagnostic on its line {line} [{where}]"
+                    und_total[line] = und_total.get(line, 0) + 1
+                    # every unresolved reference needs its OWN error diagnostic: one reported for another page (or
+                    # another inclusion of the same file) at the same line number does not excuse this one
+                    if und_total[line] > impl.get("error_count", {}).get(str(line), 0):
+                        return f"more ref_roles without destination on line {line} than error diagnostics on that line in the whole build [{where}]"
         if impl.get("metadata_bson_exc"):
             return f"bson.encode(metadata) raised {impl['metadata_bson_exc']}"
         return None
